@@ -50,10 +50,11 @@ def goenv():
 
 # ----------------------------------------------------------------------------- harness build
 
-def build_harness(race=False):
-    """Copy harness/ to work/hb, point the replace directive at $VERIF_REPO, build cmd/drive.
-    Always rebuilds from the repository's current working tree (go's build cache makes it cheap)."""
-    hb = WORK / "hb"
+def build_harness(race=False, cmd="drive"):
+    """Copy harness/ to work/hb-<cmd>, point the replace directive at $VERIF_REPO, build harness/cmd/<cmd>.
+    Always rebuilds from the repository's current working tree (go's build cache makes it cheap).
+    One build directory per command so that checks of different properties can run concurrently."""
+    hb = WORK / ("hb-" + cmd + ("-race" if race else ""))
     hb.mkdir(parents=True, exist_ok=True)
     subprocess.run(["rsync", "-a", "--delete", "--exclude", "go.mod", "--exclude", "go.sum",
                     str(VERIF / "harness") + "/", str(hb) + "/"], check=True)
@@ -62,11 +63,11 @@ def build_harness(race=False):
     if old != gomod:
         (hb / "go.mod").write_text(gomod)
     shutil.copy(REPO / "go.sum", hb / "go.sum")
-    out = WORK / "bin" / ("drive-race" if race else "drive")
+    out = WORK / "bin" / (cmd + ("-race" if race else ""))
     out.parent.mkdir(parents=True, exist_ok=True)
-    cmd = ["go", "build", "-tags", "verif"] + (["-race"] if race else []) + ["-o", str(out), "./cmd/drive"]
+    gocmd = ["go", "build", "-tags", "verif"] + (["-race"] if race else []) + ["-o", str(out), "./cmd/" + cmd]
     t0 = time.time()
-    p = subprocess.run(cmd, cwd=hb, env=goenv(), capture_output=True, text=True)
+    p = subprocess.run(gocmd, cwd=hb, env=goenv(), capture_output=True, text=True)
     if p.returncode != 0:
         raise MachineryError("harness build failed:\n" + p.stdout[-4000:] + p.stderr[-4000:])
     log(f"[build] {out.name} in {time.time()-t0:.1f}s (repo={REPO})")
@@ -283,7 +284,11 @@ def load_findings(prop):
     if not p.exists():
         return []
     data = json.loads(p.read_text())
-    return [f for f in data.get("findings", []) if f.get("property") == prop]
+    res = [f for f in data.get("findings", []) if f.get("property") == prop]
+    # entries proposed while a check is being built (merged into known_findings.json on integration)
+    for extra in sorted((VERIF / "known_findings.d").glob("*.json")) if (VERIF / "known_findings.d").exists() else []:
+        res += [f for f in json.loads(extra.read_text()).get("findings", []) if f.get("property") == prop]
+    return res
 
 
 def _match(pred, obs):
